@@ -176,7 +176,7 @@ def run(ctx):
 
     # ---------------- benchmark fairness / reproducibility / name ----------------
     tasks = []
-    nb = 3 if quick else 10
+    nb = 5 if quick else 15
     hs = [{}, {"step_rk4": 1e-17}, {"step_bsimp": 1e-17}, {"step_rk4": 1e-17, "step_bsimp": 1e-17}, {"step_bsimp": 0.2, "step_rk4": 0.01}]
     for k in range(nb):
         seed = rng.randint(0, 10 ** 6)
